@@ -203,3 +203,23 @@ PROPS["C09"]["assumptions"] += [
     "contract stubs for TcpStream::connect_timeout / write / set_read_timeout / set_write_timeout and Response::from_stream (returns Ok(any) or Err(any)); format! and IpAddr Display stubbed (their text is not part of the obligation)",
 ]
 PROPS["C09"]["not_covered"] += ["the bytes written upstream (request serialisation uses format!): 'request unchanged except X-Forwarded-For' is not decided", "route-prefix stripping in proxy_handler", "DNS resolution of targets (to_socket_addrs().unwrap() in proxy_handler)"]
+
+PROPS["C04"] = dict(
+    level="model_checking",
+    steps=[
+        dict(kind="kani", crate="humphrey", module="in_app", tag="c04", jobs=4, unwind_rules=[(r"memchr", 12)], harnesses=[
+            H("c04_get_handler_with_host", "bounded",
+              "get_handler with a Host header, over EVERY match table (which host patterns / route patterns match): first matching route of the first matching host sub-app, "
+              "else first matching default route, else none; only the first matching host is consulted; the query takes no part",
+              bound="2 host sub-apps x 2 routes + 2 default routes (an unmatched entry is observationally absent, so smaller configurations are included)", timeout=1500),
+            H("c04_get_handler_without_host", "bounded", "same without a Host header: only the default application is consulted", bound="2x2+2", timeout=1500),
+            H("c04_websocket_dispatch_small_with_host", "bounded", "call_websocket_handler: exactly the handler of the first matching WebSocket route (same rule) runs, none if nothing matches", bound="1 host sub-app x 1 route + 1 default route", timeout=1500),
+            H("c04_websocket_dispatch_with_host", "bounded", "call_websocket_handler, full shape", bound="2x2+2", tier="thorough", timeout=1800),
+            H("c04_websocket_dispatch_without_host", "bounded", "same without a Host header", bound="2x2+2", tier="thorough", timeout=1800),
+        ]),
+    ],
+    kani_functions=[dict(file="humphrey/src/app.rs", item="get_handler, call_websocket_handler", engine="kani")],
+    assumptions=["MODULAR: krauss::wildcard_match is replaced by its contract (a function of pattern and text; decided under C05) in the form of a symbolic match table",
+                 "registration order = Vec order (SubApp::with_route pushes; not exercised by the harness, which builds the vectors directly)"],
+    not_covered=["configurations with more than 2 host sub-apps or more than 2 routes per sub-app", "the tokio twin in humphrey/src/tokio/app.rs", "that the 404 response is produced when no handler is found (client_handler)"],
+)
